@@ -903,8 +903,9 @@ class RPCInterface:
         if not wait:
             # perform a basic check on processes that were already stopped
             # they have been already removed from Supvisors and Supervisor
+            stopping_namespecs = [process.namespec for process in processes_to_stop]
             processes_to_check = [proc for proc in namespecs
-                                  if proc not in processes_to_stop]
+                                  if proc not in stopping_namespecs]
             self._check_process_deletion(processes_to_check)
         else:
             def onwait() -> OnWaitReturnType:
